@@ -74,6 +74,10 @@ func c01StartCapturePeer(t testing.TB) *c01CapturePeer {
 				}
 				cp.parsed = true
 				io.WriteString(c, "HTTP/1.1 200 OK\r\nConnection: close\r\nContent-Length: 0\r\n\r\n")
+				// keep reading until the client hangs up: whatever follows the request on this
+				// connection (the surplus of an over-long body reader …) is what an origin would
+				// take for the next request — it belongs to the capture
+				io.Copy(io.Discard, br)
 			}()
 		}
 	}()
@@ -266,7 +270,7 @@ func TestVerif_C01_h1send(t *testing.T) {
 				chunked := bytes.Contains(bytes.ToLower(wire[:k+2]), []byte("\r\ntransfer-encoding:"))
 				if k < 0 || tc.cl > int64(len(tc.body)) || (!chunked && !bytes.Equal(wire[k+4:], tc.body[:tc.cl])) {
 					ok = false
-					human += " ORACLE: the peer accepted a request whose body is not the declared-length prefix"
+					human += fmt.Sprintf(" ORACLE: the peer accepted a request and received %d bytes behind its head: not exactly the declared-length prefix of the body (surplus bytes of the reader on the connection are read as the next request)", len(wire)-k-4)
 				}
 			}
 		case err != nil && (len(caps) == 0 || caps[0].raw.Len() == 0 || !strings.Contains(c01SendErrKind(err), "other")):
